@@ -1206,6 +1206,7 @@ const (
 	kindIfElse    = cfg.KindIfElse
 	kindForLoop   = cfg.KindForLoop
 	kindForBody   = cfg.KindForBody
+	kindForDone   = cfg.KindForDone
 )
 
 const (
